@@ -1,5 +1,10 @@
 """names of the Lean theorems (obligations) and bounded Lean tests of the VSA family"""
-THEOREMS_C21 = []
-TESTS_C21 = ["Claripy.Props.C21.test_add_example"]
-THEOREMS_C22 = []
-TESTS_C22 = []
+P21 = "Claripy.Props.C21."
+P22 = "Claripy.Props.C22."
+V = "Claripy.VSA."
+THEOREMS_C21 = [P21 + n for n in ("C21_add_sound", "sdiv_unsound", "mul_unaligned_unsound")] + \
+               [V + n for n in ("add_sound", "mem_new", "mem_top", "overflow_false", "cd_add", "wrappedCard_nat")]
+TESTS_C21 = [P21 + "test_add_example"]
+THEOREMS_C22 = [P22 + n for n in ("C22_top_mem", "C22_new_mem", "widen_unsound", "widen_wrap_unsound", "widen_offset_unsound",
+                                  "meet_unaligned_unsound", "max_unaligned_wrong")]
+TESTS_C22 = [P22 + "test_join_example"]
